@@ -7,7 +7,9 @@ Rec == ndJsonDeserialize(IOEnv.TRACE)
 VARIABLE l
 Init == l = 1
 Is(o, r) == o.q > 0 /\ o.e <= -36 /\ Norm(o.p, o.q) = r
-Step(ev) == /\ ev.out = "ok"
+\* shift_ok: variance and the covariances (all algorithms) of the same data moved to 2^20 and to +-1e8 agree with the values at
+\* the origin within 2^-40 (spread^2 + spread |offset|) - VarSpec(Shift(x, c)) = VarSpec(x) is Inv_Laws of MC_Stats
+Step(ev) == /\ ev.out = "ok" /\ ev.shift_ok = TRUE
             /\ LET x == ev.x  y == ev.y  r == ev.res IN
                /\ Is(r[1], MeanSpec(x)) /\ Is(r[2], MeanSpec(x))
                /\ Is(r[3], VarSpec(x)) /\ Is(r[4], SampleVarSpec(x))
